@@ -29,6 +29,12 @@ ORDER = {"__lt__": ast.Lt, "__le__": ast.LtE, "__gt__": ast.Gt, "__ge__": ast.Gt
 
 def run(rep, ctx):
     rep.run_rule("C18.R1", "FractionValue: float is number + fraction; four explicit order dunders on float(); copy keeps both parts", r1_fraction_value, ctx)
+    from . import c13
+    rep.rule("C18.R6", "a FractionScalar keeps no state besides its value and quantity: validation is recomputed from the held value like a Scalar's (shared with C13.R1)")
+    try:
+        borrow(rep, c13.r1_writers, ctx, "C13.R1", "C18.R6", keep=lambda o: "FractionScalar" in o.key)
+    except AnalysisError as e:
+        rep.error("C18.R6", str(e))
     rep.run_rule("C18.R5", "FractionValue.CreateFromString hands the parsed number, numerator and denominator on unchanged (format -> parse keeps the amount)", r5_parse, ctx)
     rep.run_rule("C18.R2", "Fraction: arithmetic dunders apply the matching operator; == and < share one comparison", r2_fraction, ctx)
     rep.run_rule("C18.R3", "FractionScalar agrees with Scalar: ordering, validation and value access", r3_siblings, ctx)
@@ -139,6 +145,14 @@ def r2_fraction(rep, ctx):
         main = rets[-1] if rets else None
         t = res_.term(main.value) if main is not None else None
         ok = t is not None and all(pred(a) for a in alternatives(t))
+        # earlier returns: only the hand-over of a sequence operand to its own operator (`other * self`)
+        for early in rets[:-1]:
+            et = res_.term(early.value)
+            for a in alternatives(et):
+                handover = a[0] == "op" and a[1] in ("Mult", "Add", "Sub", "Div") and len(a[2]) == 2 and a[2][0][0] == "param" and a[2][1] == ("self",)
+                if not (pred(a) or handover):
+                    ok = False
+                    t = et
         rep.check(ok, "C18.R2", "Fraction.%s" % name, "%s applies the matching exact operation" % name,
                   "Fraction.%s returns %s, which is not the matching operation on the wrapped exact fraction" % (name, show(t, 160) if t else None), fn=fn)
     # == accepts plain numbers: a `return False` of Fraction.__eq__ may only be taken for operands that are
